@@ -145,7 +145,7 @@ def sym_timeout(c):
 
 REPLAY_HEAD = '''# replay of a counterexample found by /verif (property C15) on the real rpyc, with a virtual clock
 import sys
-sys.path.insert(0, "/repo")
+sys.path.insert(0, __import__("os").environ.get("VERIF_REPO", "/repo"))
 import rpyc.lib, rpyc.core.async_
 from rpyc.core.async_ import AsyncResult, AsyncResultTimeout
 class Clock(object):
